@@ -29,11 +29,19 @@ type XOp struct {
 	Key int    `json:"key,omitempty"`
 }
 
-// XDec is a scheduler decision (controlled mode): C selects start/complete, I the target, OK the creation outcome.
+// XDec is a scheduler decision (controlled and squeezed mode): C selects start/complete, I the target, OK the creation outcome.
 type XDec struct {
 	C  int  `json:"c"`
 	I  int  `json:"i"`
 	OK bool `json:"ok"`
+	// Nil (cases with an interface-typed value): kind of value a successful completion hands over (KindValue, KindNilIface, KindNilPtr).
+	Nil int `json:"nil,omitempty"`
+	// Over (squeezed mode only): the decision is a SQUEEZE if a creation is parked: that creation (chosen by I, preferably one other
+	// callers are waiting for) completes, and the 1..3 decisions of Over - start the next call of an idle worker / complete another
+	// parked creation - are fired right behind it, in this order, while the harness holds the cache's own mutex (overlay accessor
+	// VerifWithLock). Released, the mutex is handed over in arrival order: the creator publishes its value, then the overtakers run
+	// their critical sections, and only then the callers that waited for the creation get to look at the cache again.
+	Over []XDec `json:"over,omitempty"`
 }
 
 // XCase is the generated object.
@@ -46,7 +54,11 @@ type XCase struct {
 	Yields     int     `json:"yields,omitempty"`      // free-running mode: Gosched calls inside the create function
 	NoCB       bool    `json:"no_cb,omitempty"`       // the cache is built without a delete callback: judged on returned values, creations and Clear counts only
 	SlowDelete bool    `json:"slow_delete,omitempty"` // free-running mode: the delete callback takes tens of microseconds
-	History    []XRec  `json:"history,omitempty"`     // filled in on failure
+	// Iface: the cache is lru.Cache[string,any] instead of lru.Cache[string,int] - the value type is an interface type and successful
+	// creations hand over nil interface values, typed nil pointers and non-nil pointers (controlled/squeezed: XDec.Nil; free: NilPct)
+	Iface   bool   `json:"iface,omitempty"`
+	NilPct  int    `json:"nilpct,omitempty"`  // free-running mode, Iface: percentage of successful creations that return a nil value
+	History []XRec `json:"history,omitempty"` // filled in on failure
 }
 
 type kv struct {
@@ -61,7 +73,8 @@ type XRec struct {
 	Key     string `json:"key,omitempty"`
 	Call    int64  `json:"call"`
 	Ret     int64  `json:"ret"`
-	Val     int    `json:"val,omitempty"`     // returned value id (GetOrCreate ok)
+	Val     int    `json:"val,omitempty"`     // returned value id (GetOrCreate ok); 0 for a nil value
+	Nil     int    `json:"nil,omitempty"`     // Iface: kind of the returned value (KindNilIface / KindNilPtr; a nil value carries no id)
 	Err     bool   `json:"err,omitempty"`     // GetOrCreate returned an error
 	Created int    `json:"created,omitempty"` // value id created by this very call (0 = did not create successfully)
 	Tried   int    `json:"tried,omitempty"`   // number of create-function calls made by this call
@@ -72,23 +85,43 @@ type XRec struct {
 
 var errCreate = errors.New("creation failed (harness)")
 
+// xval is what the harness knows about a successfully created value.
+type xval struct {
+	key  string
+	kind int
+}
+
+// xgate is a creation parked inside the create function (controlled and squeezed mode). Outcome sent through ch: 0 = fail, 1+kind = ok.
+type xgate struct {
+	ch     chan int
+	worker int
+}
+
 type xrun struct {
-	c       XCase
-	cache   *lru.Cache[string, int]
-	mu      sync.Mutex
-	stamp   atomic.Int64
-	nextVal atomic.Int64
-	hist    []XRec
-	cur     map[uint64]*XRec // goroutine id -> the call it is in (attribution of callbacks)
-	inFl    map[string]int   // creations in flight per key
-	created map[int]string   // value id -> key, successfully created
-	deleted map[int]int      // value id -> number of delete callbacks
-	viol    *vstat.Violation
+	c        XCase
+	prop     string // property the run reports to (C09; C11 for the structural unit)
+	get      func(k string) (id, kind int, err error)
+	remove   func(k string) bool
+	clear    func() int
+	walk     func() walkRes // overlay accessor VerifWalk (walkRes.OK false if absent)
+	withLock func(func())   // overlay accessor VerifWithLock (nil if absent)
+	walks    int
+	mu       sync.Mutex
+	stamp    atomic.Int64
+	nextVal  atomic.Int64
+	hist     []XRec
+	cur      map[uint64]*XRec // goroutine id -> the call it is in (attribution of callbacks)
+	inFl     map[string]int   // creations in flight per key
+	created  map[int]xval     // value id -> key and kind, successfully created
+	deleted  map[int]int      // value id -> number of delete callbacks
+	viol     *vstat.Violation
 	// controlled mode
-	gates   map[string]chan bool // key -> channel of the creation parked for it
-	overlap bool                 // two workers were inside GetOrCreate of one key at the same time
-	inGet   map[string]int
-	midMut  bool // Remove/Clear/eviction ran between a creation's start and its insertion
+	gates                        map[string]*xgate // key -> the creation parked for it
+	nilMade, nilDeleted, nilHits int
+	overlap                      bool // two workers were inside GetOrCreate of one key at the same time
+	inGet                        map[string]int
+	midMut                       bool // Remove/Clear/eviction ran between a creation's start and its insertion
+	epilogue                     bool // every worker call has returned; the epilogue of finish() is running
 	// free mode
 	free     bool
 	testName string
@@ -97,10 +130,16 @@ type xrun struct {
 	freeSlowDelete bool
 }
 
+// xFreshKey: key indices from here on are the fresh keys of the epilogue.
+const xFreshKey = 1000
+
 // xKeyName: key 0 is the zero value of the key type (the empty string), the others are single letters.
 func xKeyName(i int) string {
 	if i == 0 {
 		return ""
+	}
+	if i >= xFreshKey {
+		return "fresh" + strconv.Itoa(i-xFreshKey)
 	}
 	return string(rune('a' + i - 1))
 }
@@ -111,7 +150,7 @@ func (x *xrun) setViol(sig, format string, a ...any) {
 	}
 }
 
-func (x *xrun) create(k string) (int, error) {
+func (x *xrun) create(k string) (int, int, error) {
 	id := gated.Goid()
 	x.mu.Lock()
 	x.inFl[k]++
@@ -125,24 +164,49 @@ func (x *xrun) create(k string) (int, error) {
 	// a creation for k is only ever started when k is not resident, and a value leaves the cache only through its delete
 	// callback: so no value created for k earlier may still be waiting for its callback now
 	for v, kk := range x.created {
-		if kk == k && x.deleted[v] == 0 && !x.c.NoCB {
+		if kk.key == k && x.deleted[v] == 0 && !x.c.NoCB {
 			x.setViol("lru:creation-while-old-value-alive", "a creation for key %q was started while value #%d of the same key had not yet been passed to the delete callback", k, v)
 		}
 	}
-	var gate chan bool
-	if !x.free {
-		gate = make(chan bool, 1)
+	var gate *xgate
+	if x.inFl[k] > 1 && !x.free && !x.epilogue {
+		// second creation in flight for one key (verdict already on record): it fails at once instead of parking behind the same key
+		x.inFl[k]--
+		if rec != nil {
+			rec.Failed++
+		}
+		x.mu.Unlock()
+		return 0, 0, errCreate
+	}
+	if !x.free && !x.epilogue {
+		gate = &xgate{ch: make(chan int, 1), worker: -2}
+		if rec != nil {
+			gate.worker = rec.Worker
+		}
 		x.gates[k] = gate
 	}
 	x.mu.Unlock()
-	ok := true
-	if x.free {
+	ok, kind := true, KindValue
+	if x.epilogue {
+		// the creations of the epilogue succeed at once with a non-nil value
+	} else if x.free {
 		for i := 0; i < x.c.Yields; i++ {
 			runtime.Gosched()
 		}
-		ok = int(x.nextVal.Load()*37+int64(len(k)))%100 >= x.c.FailPct
+		n := x.nextVal.Load()
+		ok = int(n*37+int64(len(k)))%100 >= x.c.FailPct
+		if h := int(n*61+int64(len(k))*7) % 100; h < x.c.NilPct { // two nil values in three are nil interface values
+			kind = KindNilIface
+			if h%3 == 2 {
+				kind = KindNilPtr
+			}
+		}
 	} else {
-		ok = <-gate
+		out := <-gate.ch
+		ok, kind = out > 0, normKind(out-1)
+	}
+	if !x.c.Iface {
+		kind = KindValue
 	}
 	x.mu.Lock()
 	defer x.mu.Unlock()
@@ -151,17 +215,24 @@ func (x *xrun) create(k string) (int, error) {
 		if rec != nil {
 			rec.Failed++
 		}
-		return 0, errCreate
+		return 0, 0, errCreate
 	}
 	v := int(x.nextVal.Add(1))
-	x.created[v] = k
+	x.created[v] = xval{k, kind}
+	if kind != KindValue {
+		x.nilMade++
+	}
 	if rec != nil {
 		rec.Created = v
 	}
-	return v, nil
+	return v, kind, nil
 }
 
-func (x *xrun) onDelete(k string, v int) {
+// onDelete is the delete callback. A nil value (kind != KindValue) carries no id: it stands for the one value of that kind that
+// has been created for the key and not been deleted yet. There is at most one: a creation for a key starts only while the key is
+// not resident, and a value leaves the cache through this callback and in no other way. (With none left, the latest deleted one
+// is charged a second time.)
+func (x *xrun) onDelete(k string, v int, kind int) {
 	id := gated.Goid()
 	if x.freeSlowDelete { // a delete callback that takes its time (free-running mode only)
 		for i := 0; i < 3+x.c.Yields*4; i++ {
@@ -171,11 +242,28 @@ func (x *xrun) onDelete(k string, v int) {
 	}
 	x.mu.Lock()
 	defer x.mu.Unlock()
+	if kind != KindValue {
+		v = 0
+		bestAlive := false
+		for cand, cv := range x.created { // the maximum by (not yet deleted, id): independent of the map order
+			if cv.key != k || cv.kind != kind {
+				continue
+			}
+			if alive := x.deleted[cand] == 0; v == 0 || (alive && !bestAlive) || (alive == bestAlive && cand > v) {
+				v, bestAlive = cand, alive
+			}
+		}
+		if v == 0 {
+			x.setViol("lru:deleted-unknown", "the delete callback got (%q, %s) but the create function never produced such a value for that key", k, kindName(kind))
+			return
+		}
+		x.nilDeleted++
+	}
 	x.deleted[v]++
 	if x.deleted[v] > 1 {
 		x.setViol("lru:deleted-twice", "value #%d of key %q was passed to the delete callback %d times", v, k, x.deleted[v])
 	}
-	if ck, ok := x.created[v]; !ok || ck != k {
+	if ck, ok := x.created[v]; !ok || ck.key != k {
 		x.setViol("lru:deleted-unknown", "the delete callback got (%q,#%d) which the create function never produced for that key", k, v)
 	}
 	if rec := x.cur[id]; rec != nil {
@@ -208,30 +296,30 @@ func (x *xrun) do(w int, op XOp) {
 			// a panic inside the cache usually leaves its mutex locked: nothing can be run to completion in this
 			// process any more, so the verdict is put on record at once and the process ends
 			v := vstat.V("lru:panic", "worker %d: %s(%s) panicked: %v", w, op.K, rec.Key, p)
-			vstat.For("C09").Record(x.testName, x.c, v)
-			fmt.Printf("VERIF-VIOLATION property=C09 test=%s sig=%s :: %s\n", x.testName, v.Sig, v.Msg)
+			vstat.For(x.prop).Record(x.testName, x.c, v)
+			fmt.Printf("VERIF-VIOLATION property=%s test=%s sig=%s :: %s\n", x.prop, x.testName, v.Sig, v.Msg)
 			os.Exit(3)
 		}
 	}()
 	rec.Call = x.stamp.Add(1)
 	switch op.K {
 	case "g":
-		v, err := x.cache.GetOrCreate(rec.Key)
+		v, kind, err := x.get(rec.Key)
 		rec.Ret = x.stamp.Add(1)
-		rec.Val, rec.Err = v, err != nil
+		rec.Val, rec.Nil, rec.Err = v, kind, err != nil
 		if err != nil && !errors.Is(err, errCreate) {
 			x.mu.Lock()
 			x.setViol("lru:foreign-error", "GetOrCreate(%q) returned %v, which the create function never produced", rec.Key, err)
 			x.mu.Unlock()
 		}
 	case "r":
-		ok := x.cache.Remove(rec.Key)
+		ok := x.remove(rec.Key)
 		rec.Ret = x.stamp.Add(1)
 		if ok {
 			rec.Result = 1
 		}
 	case "c":
-		n := x.cache.Clear()
+		n := x.clear()
 		rec.Ret = x.stamp.Add(1)
 		rec.Result = n
 	}
@@ -239,51 +327,232 @@ func (x *xrun) do(w int, op XOp) {
 	delete(x.cur, id)
 	if op.K == "g" {
 		x.inGet[rec.Key]--
+		if rec.Nil != KindValue && rec.Created == 0 && !rec.Err {
+			x.nilHits++
+		}
 	}
 	x.hist = append(x.hist, *rec)
 	x.mu.Unlock()
 }
 
-func newXrun(c XCase, free bool) (*xrun, error) {
-	x := &xrun{c: c, free: free, testName: map[bool]string{false: "TestC09Controlled", true: "TestC09Free"}[free], cur: map[uint64]*XRec{}, inFl: map[string]int{}, created: map[int]string{}, deleted: map[int]int{},
-		gates: map[string]chan bool{}, inGet: map[string]int{}}
-	x.freeSlowDelete = free && c.SlowDelete
+// Modes of a concurrent run.
+const (
+	modeControlled = "controlled" // synctest bubble, creations park on gates, the schedule is the decision list
+	modeFree       = "free"       // real goroutines, no schedule control
+	modeSqueezed   = "squeezed"   // real clock, creations park on gates, critical sections ordered through the cache's own mutex
+)
+
+func newXrun(c XCase, mode, prop, testName string) (*xrun, error) {
+	x := &xrun{c: c, prop: prop, free: mode == modeFree, testName: testName, cur: map[uint64]*XRec{}, inFl: map[string]int{}, created: map[int]xval{}, deleted: map[int]int{},
+		gates: map[string]*xgate{}, inGet: map[string]int{}}
+	x.freeSlowDelete = x.free && c.SlowDelete
+	if c.Iface {
+		// the value type is an interface type; a non-nil value is a *box carrying its id, a nil value carries nothing
+		unbox := func(v any) (int, int) {
+			if v == nil {
+				return 0, KindNilIface
+			}
+			b, ok := v.(*box)
+			switch {
+			case !ok:
+				return -1, KindValue
+			case b == nil:
+				return 0, KindNilPtr
+			}
+			return b.id, KindValue
+		}
+		var df lru.OnDeleteElemF[string, any]
+		if !c.NoCB {
+			df = func(k string, v any) {
+				id, kind := unbox(v)
+				x.onDelete(k, id, kind)
+			}
+		}
+		cache, err := lru.NewCache[string, any](c.Cap, func(k string) (any, error) {
+			id, kind, err := x.create(k)
+			switch {
+			case err != nil:
+				return nil, err
+			case kind == KindNilIface:
+				return nil, nil
+			case kind == KindNilPtr:
+				return (*box)(nil), nil
+			}
+			return &box{id: id}, nil
+		}, df)
+		if err != nil {
+			return x, err
+		}
+		x.get = func(k string) (int, int, error) {
+			v, err := cache.GetOrCreate(k)
+			if err != nil {
+				return 0, 0, err
+			}
+			id, kind := unbox(v)
+			return id, kind, nil
+		}
+		x.remove, x.clear = cache.Remove, cache.Clear
+		x.walk, x.withLock = walkOf(cache.ECache), withLockOf(cache.ECache)
+		return x, nil
+	}
 	var df lru.OnDeleteElemF[string, int]
 	if !c.NoCB {
-		df = x.onDelete
+		df = func(k string, v int) { x.onDelete(k, v, KindValue) }
 	}
-	cache, err := lru.NewCache[string, int](c.Cap, x.create, df)
-	x.cache = cache
-	return x, err
+	cache, err := lru.NewCache[string, int](c.Cap, func(k string) (int, error) {
+		id, _, err := x.create(k)
+		return id, err
+	}, df)
+	if err != nil {
+		return x, err
+	}
+	x.get = func(k string) (int, int, error) {
+		v, err := cache.GetOrCreate(k)
+		return v, KindValue, err
+	}
+	x.remove, x.clear = cache.Remove, cache.Clear
+	x.walk, x.withLock = walkOf(cache.ECache), withLockOf(cache.ECache)
+	return x, nil
 }
 
 // XInfo classifies a case.
 type XInfo struct {
 	Overlap, MidMutation, Inconclusive bool
 	Calls                              int
+	NilCreated, NilDeleted, NilHits    int  // Iface: nil values created / passed to the delete callback / returned by hits
+	Walks                              int  // VerifWalk calls made
+	Squeezes                           int  // squeezed mode: squeezes carried out
+	SqueezedWaiters                    bool // ... at least one of them on a creation other callers were waiting for
+	SqueezedCompletion, SqueezedCall   bool // ... overtaken by the insertion of another creation / by a call started behind it
+	NoHook                             bool // squeezed mode: the overlay accessor is absent, nothing was run
+	Diverged                           bool // structural unit (C11): a functional oracle disagreed (C09's business), case abandoned
 }
 
-// finish: final Clear, ledger, linearizability.
-func (x *xrun) finish() *vstat.Violation {
+func (x *xrun) fill(info *XInfo) {
+	info.Overlap, info.MidMutation, info.Calls = x.overlap, x.midMut, len(x.hist)
+	info.NilCreated, info.NilDeleted, info.NilHits, info.Walks = x.nilMade, x.nilDeleted, x.nilHits, x.walks
+}
+
+// structural reads the recency list through the overlay accessor at a moment when no call is inside a critical section or
+// between its create function and its insertion: parked = creations parked inside the create function.
+func (x *xrun) structural(parked int, when string) *vstat.Violation {
+	if x.walk == nil {
+		return nil
+	}
+	var r walkRes
+	if pv := vstat.Guard("lru:walk-panic", func() *vstat.Violation { r = x.walk(); return nil }); pv != nil {
+		return pv
+	}
+	if !r.OK {
+		return nil
+	}
+	x.walks++
+	c := x.c
+	switch {
+	case !r.Sane:
+		return vstat.V("lru:walk-insane", "%s: the recency list is not well formed (nodes=%d deleted=%d refSum=%d resident=%d)", when, r.Nodes, r.Deleted, r.RefSum, r.Resident)
+	case r.Resident > c.Cap:
+		return vstat.V("lru:walk-over-capacity", "%s: %d residents in a cache of capacity %d", when, r.Resident, c.Cap)
+	case r.RefSum != 0:
+		return vstat.V("lru:walk-refsum", "%s: reference counts sum to %d although no iterator is open (nodes=%d deleted=%d resident=%d)", when, r.RefSum, r.Nodes, r.Deleted, r.Resident)
+	case r.Deleted != 0:
+		return vstat.V("lru:walk-deleted", "%s: %d removed node(s) still linked into the recency list (nodes=%d resident=%d)", when, r.Deleted, r.Nodes, r.Resident)
+	case r.Nodes != r.Resident+1:
+		return vstat.V("lru:walk-nodes", "%s: %d list nodes for %d residents (want residents+1)", when, r.Nodes, r.Resident)
+	case parked >= 0 && r.Inflight != parked:
+		return vstat.V("lru:walk-inflight", "%s: %d entries in the in-flight table, %d creations are in progress", when, r.Inflight, parked)
+	}
+	return nil
+}
+
+// verdict combines the functional verdict fv and the structural one wv. C09 owns the functional oracles and, of the structure,
+// "the number of resident values never exceeds the capacity"; the structural unit of C11 owns the structure and leaves the rest to C09.
+func (x *xrun) verdict(fv, wv *vstat.Violation, info *XInfo) (v *vstat.Violation, stop bool) {
+	if x.prop == "C11" {
+		if wv != nil {
+			return wv, true
+		}
+		if fv != nil {
+			info.Diverged = true
+			return nil, true
+		}
+		return nil, false
+	}
+	if fv != nil {
+		return fv, true
+	}
+	if wv != nil && wv.Sig == "lru:walk-over-capacity" {
+		return wv, true
+	}
+	return nil, false
+}
+
+// finish: every call has returned. Structure, epilogue, final Clear, structure, ledger, linearizability.
+// Epilogue: min(capacity, 4) GetOrCreate calls on fresh keys, one after the other, whose creations succeed at once. They are
+// ordinary calls of the history; in a full cache each of them must evict the then least recently used entry, so the recency
+// order the concurrent part has left behind is read back through the delete callbacks (a cache without callback shows
+// less). An unbounded cache gets 2 such calls, which must not evict.
+func (x *xrun) finish(info *XInfo) *vstat.Violation {
+	wv := x.structural(0, "after every call has returned")
+	x.epilogue = true
+	nEpi := min(x.c.Cap, 4)
+	if x.c.Cap >= hugeCap {
+		nEpi = 2
+	}
+	for i := 0; i < nEpi; i++ {
+		x.do(-1, XOp{K: "g", Key: xFreshKey + i})
+	}
+	if wv == nil {
+		wv = x.structural(0, "after every call has returned and the epilogue's insertions of fresh keys")
+	}
 	x.do(-1, XOp{K: "c"})
+	if wv == nil {
+		wv = x.structural(0, "after every call has returned and the final Clear")
+	}
+	if wv == nil && x.walk != nil {
+		if r := x.walk(); r.OK && r.Resident != 0 {
+			wv = vstat.V("lru:walk-resident-after-clear", "after the final Clear the cache still holds %d entries", r.Resident)
+		}
+	}
 	x.mu.Lock()
 	defer x.mu.Unlock()
-	if x.viol != nil {
-		return x.viol
+	fv := x.viol
+	if fv == nil {
+		fv = x.ledgerLocked()
 	}
-	for v, k := range x.created {
-		if x.c.NoCB {
-			break
+	if v, stop := x.verdict(fv, wv, info); stop {
+		return v
+	}
+	kinds := map[int]int{}
+	for v, cv := range x.created {
+		if cv.kind != KindValue {
+			kinds[v] = cv.kind
 		}
+	}
+	v, _ := x.verdict(checkLRUHistory(x.c.Cap, x.hist, x.c.NoCB, kinds), nil, info)
+	return v
+}
+
+func (x *xrun) ledgerLocked() *vstat.Violation {
+	if x.c.NoCB {
+		return nil
+	}
+	ids := make([]int, 0, len(x.created))
+	for v := range x.created {
+		ids = append(ids, v)
+	}
+	sort.Ints(ids)
+	for _, v := range ids {
+		k := x.created[v].key
 		switch x.deleted[v] {
 		case 1:
 		case 0:
-			return vstat.V("lru:value-leaked", "value #%d created for key %q was never passed to the delete callback although the cache has been cleared", v, k)
+			return vstat.V("lru:value-leaked", "value #%d (%s) created for key %q was never passed to the delete callback although the cache has been cleared", v, kindName(x.created[v].kind), k)
 		default:
 			return vstat.V("lru:deleted-twice", "value #%d of key %q was deleted %d times", v, k, x.deleted[v])
 		}
 	}
-	return checkLRUHistory(x.c.Cap, x.hist, x.c.NoCB)
+	return nil
 }
 
 // ---- sequential specification (porcupine model): state = recency list, oldest first
@@ -335,8 +604,17 @@ func sameMultiset(a, b []kv) bool {
 	return true
 }
 
+// returned tells whether what a GetOrCreate returned (r.Val, r.Nil) is value #want: a non-nil value shows its id, a nil value
+// (kinds[want] != KindValue) shows only which kind of nil it is.
+func returned(r XRec, want int, kinds map[int]int) bool {
+	if k := kinds[want]; k != KindValue {
+		return r.Nil == k && r.Val == 0
+	}
+	return r.Nil == KindValue && r.Val == want
+}
+
 // stepLRU: with noCB the cache has no delete callback, so the ops report no evictions; the model then supplies them.
-func stepLRU(capacity int, st lruState, r XRec, noCB bool) (bool, lruState) {
+func stepLRU(capacity int, st lruState, r XRec, noCB bool, kinds map[int]int) (bool, lruState) {
 	l := decodeState(st)
 	if noCB && len(r.Deleted) == 0 {
 		// fill in what the model says this op evicts, so that the comparisons below hold trivially
@@ -347,7 +625,7 @@ func stepLRU(capacity int, st lruState, r XRec, noCB bool) (bool, lruState) {
 			}
 		}
 		switch {
-		case r.Kind == "g" && idx < 0 && !r.Err && len(l)+1 > capacity && len(l) > 0:
+		case r.Kind == "g" && idx < 0 && !r.Err && len(l) >= capacity && len(l) > 0:
 			r.Deleted = []kv{l[0]}
 		case r.Kind == "r" && idx >= 0:
 			r.Deleted = []kv{l[idx]}
@@ -364,7 +642,7 @@ func stepLRU(capacity int, st lruState, r XRec, noCB bool) (bool, lruState) {
 	switch r.Kind {
 	case "g":
 		if idx >= 0 { // hit: no successful creation by this call, returns the resident value, becomes most recently used
-			if r.Created != 0 || r.Err || r.Val != l[idx].V || len(r.Deleted) != 0 {
+			if r.Created != 0 || r.Err || !returned(r, l[idx].V, kinds) || len(r.Deleted) != 0 {
 				return false, st
 			}
 			e := l[idx]
@@ -374,11 +652,11 @@ func stepLRU(capacity int, st lruState, r XRec, noCB bool) (bool, lruState) {
 		if r.Err { // failed creation changes nothing
 			return r.Created == 0 && r.Tried >= 1 && len(r.Deleted) == 0, st
 		}
-		if r.Created == 0 || r.Val != r.Created {
+		if r.Created == 0 || !returned(r, r.Created, kinds) {
 			return false, st
 		}
 		l = append(l, kv{r.Key, r.Created})
-		if len(l) > capacity {
+		if len(l)-1 >= capacity { // one more than the capacity (which may be math.MaxInt)
 			if len(r.Deleted) != 1 || r.Deleted[0] != l[0] {
 				return false, st
 			}
@@ -405,11 +683,11 @@ func stepLRU(capacity int, st lruState, r XRec, noCB bool) (bool, lruState) {
 	return false, st
 }
 
-func checkLRUHistory(capacity int, hist []XRec, noCB bool) *vstat.Violation {
+func checkLRUHistory(capacity int, hist []XRec, noCB bool, kinds map[int]int) *vstat.Violation {
 	model := porcupine.Model{
 		Init: func() interface{} { return lruState("") },
 		Step: func(s, in, out interface{}) (bool, interface{}) {
-			return stepLRU(capacity, s.(lruState), in.(XRec), noCB)
+			return stepLRU(capacity, s.(lruState), in.(XRec), noCB, kinds)
 		},
 		Equal: func(a, b interface{}) bool { return a.(lruState) == b.(lruState) },
 	}
@@ -423,7 +701,15 @@ func checkLRUHistory(capacity int, hist []XRec, noCB bool) *vstat.Violation {
 		sort.Slice(sorted, func(i, j int) bool { return sorted[i].Call < sorted[j].Call })
 		s := ""
 		for _, r := range sorted {
-			s += fmt.Sprintf("\n  [%d,%d] w%d %s(%s) -> val=#%d err=%v result=%d created=#%d tried=%d deleted=%v", r.Call, r.Ret, r.Worker, r.Kind, r.Key, r.Val, r.Err, r.Result, r.Created, r.Tried, r.Deleted)
+			val := fmt.Sprintf("#%d", r.Val)
+			if r.Nil != KindValue {
+				val = kindName(r.Nil)
+			}
+			created := fmt.Sprintf("#%d", r.Created)
+			if k := kinds[r.Created]; k != KindValue {
+				created += " (a " + kindName(k) + ")"
+			}
+			s += fmt.Sprintf("\n  [%d,%d] w%d %s(%s) -> val=%s err=%v result=%d created=%s tried=%d deleted=%v", r.Call, r.Ret, r.Worker, r.Kind, r.Key, val, r.Err, r.Result, created, r.Tried, r.Deleted)
 		}
 		return vstat.V("lru:not-linearizable", "capacity %d: no sequential LRU history has the same returned values, creations and evictions:%s", capacity, s)
 	case porcupine.Unknown:
@@ -438,19 +724,61 @@ func checkLRUHistory(capacity int, hist []XRec, noCB bool) *vstat.Violation {
 // RunControlled executes the case in a synctest bubble.
 func RunControlled(t *testing.T, c XCase) (info XInfo, v *vstat.Violation, hist []XRec) {
 	synctest.Test(t, func(*testing.T) {
-		v = vstat.Guard("lru:panic", func() *vstat.Violation { return runControlled(c, &info, &hist) })
+		v = vstat.Guard("lru:panic", func() *vstat.Violation {
+			x, err := newXrun(c, modeControlled, "C09", "TestC09Controlled")
+			if err != nil {
+				panic(err)
+			}
+			return runScheduled(x, false, &info, &hist)
+		})
 	})
 	return
 }
 
-func runControlled(c XCase, info *XInfo, histOut *[]XRec) *vstat.Violation {
-	x, err := newXrun(c, false)
-	if err != nil {
-		panic(err)
-	}
+// ---------------------------------------------------------------------------------------------
+// squeezed mode: the same gates and decision lists on the real clock, outside a bubble, plus SQUEEZES (XDec.Over): the
+// harness takes the cache's own mutex through the overlay accessor VerifWithLock, lets a parked creation complete and fires
+// the overtakers behind it, 1.5 ms apart; they queue up on the mutex, which (sync.Mutex, waiters older than 1 ms: starvation
+// mode) is handed over in arrival order once the harness lets go, later arrivals - the callers woken by the creator - at the
+// tail. So the window "the creator has published its value and released the mutex, the callers that waited for it have not
+// yet looked at the cache again" is held open for whole calls of other goroutines, instead of for nanoseconds.
+// Outside a bubble quiescence is observed, not decreed: a busy worker is parked at its gate (the harness sees the gate), or
+// its call has returned, or it is a GetOrCreate for a key whose creation is parked by another worker (then it is given 300
+// microseconds to reach its waiting place). The order is a strong tendency, not a guarantee; the oracles do not depend on
+// it: they are the ones of the other modes, evaluated at moments when nothing but parked creations is in progress.
+
+// RunSqueezed executes the case in squeezed mode and reports to prop (C09, or C11 for the structural unit).
+func RunSqueezed(c XCase, prop, testName string) (info XInfo, v *vstat.Violation, hist []XRec) {
+	v = vstat.Guard("lru:panic", func() *vstat.Violation {
+		x, err := newXrun(c, modeSqueezed, prop, testName)
+		if err != nil {
+			panic(err)
+		}
+		if x.withLock == nil {
+			info.NoHook = true
+			return nil
+		}
+		return runScheduled(x, true, &info, &hist)
+	})
+	return
+}
+
+// SqueezeAvailable tells whether the overlay accessor VerifWithLock is compiled into the library.
+func SqueezeAvailable() bool {
+	x, err := newXrun(XCase{Cap: 1}, modeSqueezed, "C09", "")
+	return err == nil && x.withLock != nil
+}
+
+// maxSqueezes bounds the squeezes of one case (each costs 5-8 ms of real time).
+const maxSqueezes = 6
+
+// runScheduled is the scheduler of the controlled mode (inside a bubble: quiescence = synctest.Wait) and of the squeezed mode.
+func runScheduled(x *xrun, squeezed bool, info *XInfo, histOut *[]XRec) (result *vstat.Violation) {
+	c := x.c
 	type wstate struct {
 		cmd  chan XOp
 		next int
+		cur  XOp // the call the worker was last given (scheduler's copy)
 		busy atomic.Bool
 	}
 	ws := make([]*wstate, len(c.Programs))
@@ -464,14 +792,75 @@ func runControlled(c XCase, info *XInfo, histOut *[]XRec) *vstat.Violation {
 			}
 		}(i)
 	}
+	// settle (squeezed mode): wait until every busy worker is parked at its gate, has returned, or is presumably waiting for a
+	// creation parked by another worker. false = a call neither returns nor parks.
+	closing := false // the verdict is in, the workers are only being released: do not wait long for one that is stuck
+	settle := func() bool {
+		deadline := time.Now().Add(15 * time.Second)
+		if closing {
+			deadline = time.Now().Add(time.Second)
+		}
+		grace := false
+		for spin := 0; ; spin++ {
+			running, waiting := 0, 0
+			x.mu.Lock()
+			for i, w := range ws {
+				if !w.busy.Load() {
+					continue
+				}
+				parked := false
+				for _, g := range x.gates {
+					if g.worker == i {
+						parked = true
+					}
+				}
+				if parked {
+					continue
+				}
+				if w.cur.K == "g" {
+					if g := x.gates[xKeyName(w.cur.Key)]; g != nil && g.worker != i {
+						waiting++
+						continue
+					}
+				}
+				running++
+			}
+			x.mu.Unlock()
+			if running == 0 {
+				if waiting > 0 && !grace {
+					grace = true
+					time.Sleep(300 * time.Microsecond)
+					continue
+				}
+				return true
+			}
+			if time.Now().After(deadline) {
+				return false
+			}
+			if spin < 100 {
+				runtime.Gosched()
+			} else {
+				time.Sleep(50 * time.Microsecond)
+			}
+		}
+	}
+	stuck := false
+	wait := func() {
+		if !squeezed {
+			synctest.Wait()
+		} else if !stuck && !settle() {
+			stuck = true
+		}
+	}
 	defer func() {
 		// free everybody whatever happened
-		for round := 0; round < 50; round++ {
-			synctest.Wait()
+		closing = true
+		for round := 0; round < 50 && !stuck; round++ {
+			wait()
 			x.mu.Lock()
 			n := 0
 			for k, g := range x.gates {
-				g <- false
+				g.ch <- 0
 				delete(x.gates, k)
 				n++
 			}
@@ -489,22 +878,50 @@ func runControlled(c XCase, info *XInfo, histOut *[]XRec) *vstat.Violation {
 		for _, w := range ws {
 			close(w.cmd)
 		}
-		synctest.Wait()
+		if !squeezed {
+			synctest.Wait()
+		}
+		x.fill(info)
+		*histOut = x.hist
 	}()
-	step := func(d XDec, drain bool) bool {
-		var starts []int
+	idle := func() (starts []int) {
 		for i, w := range ws {
 			if !w.busy.Load() && w.next < len(c.Programs[i]) {
 				starts = append(starts, i)
 			}
 		}
+		return
+	}
+	parkedKeys := func() (parked []string) {
 		x.mu.Lock()
-		var parked []string
 		for k := range x.gates {
 			parked = append(parked, k)
 		}
 		x.mu.Unlock()
 		sort.Strings(parked)
+		return
+	}
+	pick := func(i, n int) int { return ((i % n) + n) % n }
+	start := func(i int) {
+		w := ws[i]
+		w.cur = c.Programs[i][w.next]
+		w.busy.Store(true)
+		w.cmd <- w.cur
+		w.next++
+	}
+	release := func(k string, d XDec, drain bool) {
+		x.mu.Lock()
+		g := x.gates[k]
+		delete(x.gates, k)
+		x.mu.Unlock()
+		if d.OK || drain {
+			g.ch <- 1 + normKind(d.Nil)
+		} else {
+			g.ch <- 0
+		}
+	}
+	step := func(d XDec, drain bool) bool {
+		starts, parked := idle(), parkedKeys()
 		if len(starts) == 0 && len(parked) == 0 {
 			return false
 		}
@@ -513,28 +930,92 @@ func runControlled(c XCase, info *XInfo, histOut *[]XRec) *vstat.Violation {
 			pickStart = len(parked) == 0
 		}
 		if pickStart {
-			i := starts[((d.I%len(starts))+len(starts))%len(starts)]
-			w := ws[i]
-			w.busy.Store(true)
-			w.cmd <- c.Programs[i][w.next]
-			w.next++
+			start(starts[pick(d.I, len(starts))])
 		} else {
-			k := parked[((d.I%len(parked))+len(parked))%len(parked)]
-			x.mu.Lock()
-			g := x.gates[k]
-			delete(x.gates, k)
-			x.mu.Unlock()
-			g <- d.OK || drain
+			release(parked[pick(d.I, len(parked))], d, drain)
 		}
-		synctest.Wait()
+		wait()
 		return true
 	}
-	check := func() *vstat.Violation {
-		x.mu.Lock()
-		defer x.mu.Unlock()
-		if x.viol != nil {
-			return x.viol
+	// squeeze: see XDec.Over. false = not possible now (nothing parked, or nothing that could overtake).
+	squeeze := func(d XDec, drain bool) bool {
+		if !squeezed || info.Squeezes >= maxSqueezes || len(d.Over) == 0 {
+			return false
 		}
+		starts, parked := idle(), parkedKeys()
+		if len(parked) == 0 {
+			return false
+		}
+		var awaited []string // parked creations other callers are waiting for
+		x.mu.Lock()
+		for _, k := range parked {
+			if x.inGet[k] > 1 {
+				awaited = append(awaited, k)
+			}
+		}
+		x.mu.Unlock()
+		pool := parked
+		if len(awaited) > 0 && d.C%4 != 3 {
+			pool = awaited
+		}
+		target := pool[pick(d.I, len(pool))]
+		var others []string
+		for _, k := range parked {
+			if k != target {
+				others = append(others, k)
+			}
+		}
+		var fire []func()
+		completion, call := false, false
+		for _, o := range d.Over {
+			if len(fire) == 3 || (len(starts) == 0 && len(others) == 0) {
+				break
+			}
+			if len(others) == 0 || (len(starts) > 0 && o.C%3 == 0) { // another parked creation, if there is one, is the overtaker two times in three: its insertion evicts
+				j := pick(o.I, len(starts))
+				i := starts[j]
+				starts = append(starts[:j:j], starts[j+1:]...)
+				fire = append(fire, func() { start(i) })
+				call = true
+			} else {
+				j := pick(o.I, len(others))
+				k := others[j]
+				others = append(others[:j:j], others[j+1:]...)
+				fire = append(fire, func() { release(k, o, drain) })
+				completion = true
+			}
+		}
+		if len(fire) == 0 {
+			return false
+		}
+		hadWaiters := false
+		for _, k := range awaited {
+			if k == target {
+				hadWaiters = true
+			}
+		}
+		x.withLock(func() {
+			release(target, d, drain)
+			time.Sleep(1500 * time.Microsecond) // the creator reaches the mutex
+			for _, f := range fire {
+				f()
+				time.Sleep(1500 * time.Microsecond) // ... and the overtaker behind it
+			}
+		})
+		info.Squeezes++
+		info.SqueezedWaiters = info.SqueezedWaiters || hadWaiters
+		info.SqueezedCompletion = info.SqueezedCompletion || (hadWaiters && completion)
+		info.SqueezedCall = info.SqueezedCall || (hadWaiters && call)
+		wait()
+		return true
+	}
+	// check: the monitors at a quiescent point
+	check := func(when string) (*vstat.Violation, bool) {
+		if stuck {
+			return vstat.V("lru:call-never-returns", "%s: a call neither returned nor reached its create function within 15 s", when), true
+		}
+		x.mu.Lock()
+		fv := x.viol
 		live := 0
 		for v := range x.created {
 			if x.deleted[v] == 0 {
@@ -542,36 +1023,33 @@ func runControlled(c XCase, info *XInfo, histOut *[]XRec) *vstat.Violation {
 			}
 		}
 		parked := len(x.gates)
-		_ = parked
-		if live > c.Cap && !c.NoCB {
-			return vstat.V("lru:over-capacity", "%d created values have not been deleted at a quiescent point, capacity is %d", live, c.Cap)
+		x.mu.Unlock()
+		if fv == nil && live > c.Cap && !c.NoCB {
+			fv = vstat.V("lru:over-capacity", "%d created values have not been deleted at a quiescent point, capacity is %d", live, c.Cap)
 		}
-		return nil
+		return x.verdict(fv, x.structural(parked, when), info)
 	}
-	for _, d := range c.Decs {
-		if !step(d, false) {
+	for n, d := range c.Decs {
+		if !squeeze(d, false) && !step(d, false) {
 			break
 		}
-		if v := check(); v != nil {
-			*histOut = x.hist
+		if v, stop := check(fmt.Sprintf("at the quiescent point after scheduler decision #%d", n)); stop {
 			return v
 		}
 	}
-	for i := 0; i < 500 && step(XDec{}, true); i++ {
-		if v := check(); v != nil {
-			*histOut = x.hist
+	drainSqueeze := XDec{OK: true, Over: []XDec{{C: 1}, {C: 1}}}
+	for i := 0; i < 500 && (squeeze(drainSqueeze, true) || step(XDec{}, true)); i++ {
+		if v, stop := check("at a quiescent point of the drain"); stop {
 			return v
 		}
 	}
 	for i, w := range ws {
 		if w.busy.Load() {
-			*histOut = x.hist
-			return vstat.V("lru:call-never-returns", "worker %d is still inside %v although no creation is in progress and nobody else can move", i, c.Programs[i][w.next-1])
+			v, _ := x.verdict(vstat.V("lru:call-never-returns", "worker %d is still inside %v although no creation is in progress and nobody else can move", i, c.Programs[i][w.next-1]), nil, info)
+			return v
 		}
 	}
-	v := x.finish()
-	info.Overlap, info.MidMutation, info.Calls = x.overlap, x.midMut, len(x.hist)
-	*histOut = x.hist
+	v := x.finish(info)
 	if v != nil && v.Sig == "lru:checker-timeout" {
 		info.Inconclusive = true
 		return nil
@@ -585,7 +1063,7 @@ func runControlled(c XCase, info *XInfo, histOut *[]XRec) *vstat.Violation {
 // RunFree executes the programs concurrently without any schedule control.
 func RunFree(c XCase) (info XInfo, v *vstat.Violation, hist []XRec) {
 	v = vstat.Guard("lru:panic", func() *vstat.Violation {
-		x, err := newXrun(c, true)
+		x, err := newXrun(c, modeFree, "C09", "TestC09Free")
 		if err != nil {
 			panic(err)
 		}
@@ -614,8 +1092,8 @@ func RunFree(c XCase) (info XInfo, v *vstat.Violation, hist []XRec) {
 			}
 			return vstat.V("lru:call-never-returns", "the free-running workers did not finish within 15 s")
 		}
-		v := x.finish()
-		info.Overlap, info.MidMutation, info.Calls = x.overlap, x.midMut, len(x.hist)
+		v := x.finish(&info)
+		x.fill(&info)
 		hist = x.hist
 		if v != nil && v.Sig == "lru:checker-timeout" {
 			info.Inconclusive = true
